@@ -43,7 +43,7 @@ from funsor.interpreter import reinterpret
 DECLINE = (NotImplementedError, AssertionError, ValueError, TypeError, KeyError, IndexError)
 POOL = ["i", "j", "k", "a", "b"]
 
-PY_HEADER = gen_terms.PY_HEADER + ("from funsor.terms import Subs, Binary\nfrom funsor.domains import Reals\n"
+PY_HEADER = gen_terms.PY_HEADER + ("from funsor.terms import Subs, Binary\nfrom funsor.domains import Reals\nfrom funsor.cnf import Contraction\n"
                                    "from funsor.interpretations import reflect, lazy, eager\n"
                                    "from funsor.interpreter import reinterpret\n")
 
@@ -100,6 +100,14 @@ def build2(r):
         return Variable(r[1], Real)
     if tag == "bin2":
         return gen_terms.OPS[r[1]](build2(r[2]), build2(r[3]))
+    if tag == "stack2":                     # Stack whose parts may contain extra tags / repeated identical parts
+        return Stack(r[1], tuple(build2(p) for p in r[2]))
+    if tag == "cat2":
+        return Cat(r[1], tuple(build2(p) for p in r[2]))
+    if tag == "contr2":                     # an n-ary Contraction built directly (operands may repeat)
+        from funsor.cnf import Contraction
+        return Contraction(ops.null if r[1] == "null" else gen_terms.OPS[r[1]], gen_terms.OPS[r[2]], frozenset(),
+                           *[build2(p) for p in r[3]])
     if tag == "rvec":                       # a real ARRAY-valued free variable
         return Variable(r[1], Reals[r[2]])
     if tag == "usum":                       # sum over the event dimension
@@ -115,6 +123,13 @@ def python_of2(r):
         return f"Variable({r[1]!r}, Real)"
     if tag == "bin2":
         return f"ops.{gen_terms._pyop(r[1])}({python_of2(r[2])}, {python_of2(r[3])})"
+    if tag == "stack2":
+        return f"Stack({r[1]!r}, (" + ", ".join(python_of2(p) for p in r[2]) + ",))"
+    if tag == "cat2":
+        return f"Cat({r[1]!r}, (" + ", ".join(python_of2(p) for p in r[2]) + ",))"
+    if tag == "contr2":
+        return (f"Contraction(ops.{gen_terms._pyop(r[1])}, ops.{gen_terms._pyop(r[2])}, frozenset(), " +
+                ", ".join(python_of2(p) for p in r[3]) + ")")
     if tag == "rvec":
         return f"Variable({r[1]!r}, Reals[{r[2]}])"
     if tag == "usum":
@@ -719,12 +734,19 @@ def value_over(r, ins, renv):
     return ("value", ser.impl_values(r, ins))
 
 
-def run_s2(ctx, n, use_lean=True):
+def run_s2(ctx, n, use_lean=True, cases=None):
+    """cases: optional list of (recipe, sigma, interp) — given (f, sigma) pairs (stream S8) instead of generated ones."""
     rng = ctx.rng
     reqs, meta = [], []
-    for case_no in range(n):
-        c = gen_ctx(rng)
-        recipe, reals = gen_f(rng, c)
+    given = list(cases) if cases is not None else None
+    for case_no in range(len(given) if given is not None else n):
+        if given is not None:
+            recipe, sigma_given, interp_given = given[case_no]
+            c, reals = None, []
+            ctx.count("S8:case")
+        else:
+            c = gen_ctx(rng)
+            recipe, reals = gen_f(rng, c)
         try:
             with syntax_mode():
                 f_syn = build2(recipe)
@@ -746,42 +768,45 @@ def run_s2(ctx, n, use_lean=True):
             continue
         # ---- sigma
         pool_sizes = dict(f_ints)
-        keys = [k for k, _ in f_ints if rng.random() < 0.6]
-        if not keys and f_ints:
-            keys = [rng.choice(f_ints)[0]]
-        rkeys = [k for k in f_reals if rng.random() < 0.6]
-        # names that survive keep their size; substituted keys' names become available again only if
-        # re-introduced with the same size (keeps the substitution well-typed most of the time)
-        sigma, kinds = [], []
-        for k in keys:
-            v, kind = gen_int_value(rng, c, dict(f_ints)[k], pool_sizes)
-            sigma.append((k, v))
-            kinds.append(kind)
-        for k in rkeys:
-            if f_syn.inputs[k].shape:
-                n_ = int(f_syn.inputs[k].shape[0])
-                if rng.random() < 0.3:
-                    v, kind = ("rvec", rng.choice(["u", "v"]), n_), "real-array-rename"
-                else:
-                    names_ = [nm for nm in POOL if rng.random() < 0.35]
-                    for nm in names_:
-                        pool_sizes.setdefault(nm, rng.choice([1, 2, 3]))
-                    c2_ = OrderedDict((nm, pool_sizes[nm]) for nm in names_)
-                    v, kind = gen_terms.gen_tensor(rng, c2_, "real", names=names_, event_shape=(n_,)), "real-array-tensor"
+        if given is not None:
+            sigma, kinds, foreign = list(sigma_given), ["dup-case"] * len(sigma_given), []
+        else:
+            keys = [k for k, _ in f_ints if rng.random() < 0.6]
+            if not keys and f_ints:
+                keys = [rng.choice(f_ints)[0]]
+            rkeys = [k for k in f_reals if rng.random() < 0.6]
+            # names that survive keep their size; substituted keys' names become available again only if
+            # re-introduced with the same size (keeps the substitution well-typed most of the time)
+            sigma, kinds = [], []
+            for k in keys:
+                v, kind = gen_int_value(rng, c, dict(f_ints)[k], pool_sizes)
                 sigma.append((k, v))
                 kinds.append(kind)
+            for k in rkeys:
+                if f_syn.inputs[k].shape:
+                    n_ = int(f_syn.inputs[k].shape[0])
+                    if rng.random() < 0.3:
+                        v, kind = ("rvec", rng.choice(["u", "v"]), n_), "real-array-rename"
+                    else:
+                        names_ = [nm for nm in POOL if rng.random() < 0.35]
+                        for nm in names_:
+                            pool_sizes.setdefault(nm, rng.choice([1, 2, 3]))
+                        c2_ = OrderedDict((nm, pool_sizes[nm]) for nm in names_)
+                        v, kind = gen_terms.gen_tensor(rng, c2_, "real", names=names_, event_shape=(n_,)), "real-array-tensor"
+                    sigma.append((k, v))
+                    kinds.append(kind)
+                    continue
+                v, kind = gen_real_value(rng, c, pool_sizes)
+                sigma.append((k, v))
+                kinds.append(kind)
+            if not sigma:
                 continue
-            v, kind = gen_real_value(rng, c, pool_sizes)
-            sigma.append((k, v))
-            kinds.append(kind)
-        if not sigma:
-            continue
-        rng.shuffle(sigma)
-        foreign = []
-        if rng.random() < 0.3:
-            fk = rng.choice([n_ for n_ in ["zz", "a", "b", "k"] if n_ not in f_syn.inputs] or ["zz"])
-            if fk not in f_syn.inputs:
-                foreign.append((fk, ("num", 0, 2) if rng.random() < 0.5 else ("var", "i", 2)))
+            rng.shuffle(sigma)
+            foreign = []
+            if rng.random() < 0.3:
+                fk = rng.choice([n_ for n_ in ["zz", "a", "b", "k"] if n_ not in f_syn.inputs] or ["zz"])
+                if fk not in f_syn.inputs:
+                    foreign.append((fk, ("num", 0, 2) if rng.random() < 0.5 else ("var", "i", 2)))
         try:
             with syntax_mode():
                 sig_syn = [(k, build2(v)) for k, v in sigma]
@@ -812,8 +837,10 @@ def run_s2(ctx, n, use_lean=True):
         if int(np.prod([s for _, s in ins] or [1])) > 400:
             ctx.count("S2:too-big")
             continue
-        interp = rng.choice(["eager", "eager", "lazy", "reflect"])
-        mode = {"eager": "call", "lazy": rng.choice(["call", "call-under-lazy"]), "reflect": "Subs+reinterpret"}[interp]
+        interp = interp_given if given is not None else rng.choice(["eager", "eager", "lazy", "reflect"])
+        # (both reinterpreters = both settings of FUNSOR_USE_TCO, which only selects between these two functions)
+        mode = {"eager": "call", "lazy": rng.choice(["call", "call-under-lazy"]),
+                "reflect": rng.choice(["Subs+stack_reinterpret", "Subs+recursion_reinterpret"])}[interp]
         if cat_capture_region(f_syn, sig_syn):
             # a value substituted below a lazily built Cat mentions the Cat's own name: funsor must decline
             # (Cat.__init__'s name-clash assertion, also made by the eager Cat rules since e7d35f5) or be right;
@@ -951,13 +978,16 @@ def s2_run_impl(recipe, sigma, foreign, interp, mode):
     lazy_inputs = None
     try:
         f = build_under(interp, recipe)
-        if mode == "Subs+reinterpret":
+        if mode.startswith("Subs+"):
             with reflect:
                 vals = [(k, build2(v)) for k, v in sigma + foreign]
                 s = Subs(f, tuple(vals))
             lazy_inputs = OrderedDict(s.inputs)
+            from funsor.interpreter import stack_reinterpret, recursion_reinterpret
+            rein = {"Subs+reinterpret": reinterpret, "Subs+stack_reinterpret": stack_reinterpret,
+                    "Subs+recursion_reinterpret": recursion_reinterpret}[mode]
             with eager:
-                r = reinterpret(s)
+                r = rein(s)
         elif mode == "call-under-lazy":
             with lazy:
                 kw = {k: build2(v) for k, v in sigma + foreign}
@@ -973,9 +1003,10 @@ def s2_run_impl(recipe, sigma, foreign, interp, mode):
 def s2_python(recipe, sigma, foreign, interp, mode):
     sig = ", ".join(f"{k!r}: {python_of2(v)}" for k, v in sigma + foreign)
     src = PY_HEADER + f"with {interp}:\n    f = {python_of2(recipe)}\n"
-    if mode == "Subs+reinterpret":
-        src += (f"def CALL():\n    with reflect:\n        s = Subs(f, tuple({{{sig}}}.items()))\n    print(s.inputs)\n"
-                "    with eager:\n        return reinterpret(s)\n")
+    if mode.startswith("Subs+"):
+        src += ("from funsor.interpreter import stack_reinterpret, recursion_reinterpret\n"
+                f"def CALL():\n    with reflect:\n        s = Subs(f, tuple({{{sig}}}.items()))\n    print(s.inputs)\n"
+                f"    with eager:\n        return {mode[5:]}(s)\n")
     elif mode == "call-under-lazy":
         src += f"def CALL():\n    with lazy:\n        return f(**{{{sig}}})\n"
     else:
@@ -1106,6 +1137,62 @@ def s2_chain(ctx, rng, recipe, sigma, interp, f_wire, sig_wire, exp, pool_sizes,
     renv = renvs[0]
     reqs.append(f"C04 denote {sx(term)} {sx(ser.ins_wire(ins2))} {sx(ser.env_wire(renv))}")
     meta.append(("chain", wit, py, r_chain, r_fused, ins2, renv, exp2))
+
+
+# ------------------------------------------------------------------------------------------------
+# S8: variadic lazy nodes that list the SAME (cons-hashed) child more than once next to a deeper sibling
+# ------------------------------------------------------------------------------------------------
+
+def s8_cases(rng, tier):
+    """(recipe, sigma, interp) — the traversal `substitute()` rebuilds a term with (interpreter.anf) must wait for every
+    OCCURRENCE of a child: Stack / Cat / n-ary Contraction with a repeated identical part in every position, a sibling
+    1-3 levels deeper, optionally below another node; sigma touches the duplicate's and the deep sibling's names."""
+    out = []
+    reps = 1 if tier == "quick" else 4
+    for _ in range(reps):
+        for cls, gap, below_root in itertools.product(["stack", "cat", "contr"], [1, 2, 3], [False, True]):
+            ti = gen_terms.gen_tensor(rng, OrderedDict(i=3), "real", names=["i"])
+            uj = gen_terms.gen_tensor(rng, OrderedDict(j=2), "real", names=["j"])
+            if cls == "cat":
+                ti = gen_terms.gen_tensor(rng, OrderedDict(c=2, i=3), "real", names=["c", "i"])
+                uj = gen_terms.gen_tensor(rng, OrderedDict(c=1, j=2), "real", names=["c", "j"])
+            a = ("bin2", "mul", ti, ("rvar", "x"))
+            b = ("bin2", "add", uj, ("rvar", "y"))
+            for g_ in range(gap):
+                b = rng.choice([("bin2", "sub", ("num", 0.0, "real"), b), ("bin2", "mul", b, ("num", 2.0, "real")),
+                                ("bin2", "max", b, ("num", -1.0, "real"))])
+            layouts = [(a, a, b), (a, b, a), (b, a, a), (a, a, a, b), (a, b, a, b), (b, b, a)]
+            for parts in layouts:
+                if cls == "stack":
+                    node = ("stack2", "k", parts)
+                elif cls == "cat":
+                    node = ("cat2", "c", parts)
+                else:
+                    node = ("contr2", "null", rng.choice(["add", "mul", "max"]), parts)
+                f = ("bin2", "add", node, ("rvar", "w")) if below_root else node
+                sigmas = [
+                    [("x", ("num", 2.0, "real")), ("y", ("num", 0.5, "real"))],
+                    [("x", ("rvar", "y")), ("y", ("rvar", "x"))],
+                    [("x", ("rvar", "z")), ("y", ("rvar", "z"))],
+                    [("x", ("bin2", "add", ("rvar", "y"), ("num", 1.0, "real"))), ("y", ("bin2", "mul", ("rvar", "x"), ("num", 2.0, "real")))],
+                    [("x", ("num", 2.0, "real"))],
+                    [("y", ("rvar", "x"))],
+                    [("y", ("num", 0.5, "real")), ("i", ("num", 1, 3)), ("x", ("rvar", "y"))],
+                    [("j", ("var", "q", 2)), ("x", ("rvar", "y")), ("y", ("num", -1.0, "real"))],
+                ]
+                for sig in rng.sample(sigmas, 3 if tier == "quick" else len(sigmas)):
+                    sig = list(sig)
+                    rng.shuffle(sig)
+                    out.append((f, sig, rng.choice(["lazy", "lazy", "reflect", "eager"])))
+    return out
+
+
+def run_s8(ctx, use_lean=True):
+    cases = s8_cases(ctx.rng, ctx.tier)
+    before = len(ctx.failures)
+    run_s2(ctx, 0, use_lean=use_lean, cases=cases)
+    for fl in ctx.failures[before:]:
+        fl.name = fl.name.replace("C04.S2.", "C04.S8.dup-child.")
 
 
 # ------------------------------------------------------------------------------------------------
@@ -2317,7 +2404,9 @@ RULE = ("S1: exhaustive sigma-shapes (18 descriptors per input: none, number, va
         "Scatter. S7 (Lean models): Deltas with 1-2 names (hit/miss/tensor values, renamings incl. swaps and collisions, batch "
         "index/rename, shuffled pairs) vs `deltasubs` and denote; Independent (7 value kinds x 3 batch substitutions) vs "
         "`indepsubs`; the eager_subs decision of MarkovProduct/Scatter exhaustively over 6x6 sigma-shapes x both pair orders "
-        "vs `mpdecide`. S3: exhaustive boxes for Slice-into-Slice, Cat/Stack "
+        "vs `mpdecide`. S8: Stack / Cat / n-ary Contraction with a repeated identical part (6 layouts) and a sibling 1-3 levels "
+        "deeper, at/below the root, x 8 sigma maps (numbers, swap, diagonal, expressions, partial, with int keys), built under "
+        "lazy/reflect/eager, both reinterpreters, vs Lean denote. S3: exhaustive boxes for Slice-into-Slice, Cat/Stack "
         "with Slice/Number. Non-trivial = at least one non-number value; distinct by full content.")
 
 
@@ -2330,12 +2419,18 @@ def correspond(ctx):
     run_s5(ctx, 500 if ctx.tier == "quick" else 8000)
     run_s6(ctx)
     run_s7(ctx)
+    run_s8(ctx)
     ctx.extra["beyond_model_spec_only"] = ("stream S5 (Gaussian/Delta substitution) is compared with the explicit formula "
                                            "-1/2||xP-w||^2 / point-mass in numpy only: exploration, not tied to a Lean model")
     ctx.assumptions.append("a Tensor has only scalar Bint inputs (Tensor.__init__ asserts `d.dtype == size` per input, tensor.py:143-144; "
                            "eager_subs asserts `not domain.shape`, tensor.py:294): real-valued ARRAY substitution into a Tensor does not exist; "
                            "real arrays are substituted for Variables (S2: Reals[n] inputs read through sum/getitem), Gaussian/Delta inputs (S5) and "
                            "Independent's reals_var (S6)")
+    ctx.assumptions.append("`substitute_sound` is a theorem about the term TREE; the order in which funsor's substitute() rebuilds a shared DAG "
+                           "(interpreter.anf: every node after all OCCURRENCES of its children; C03 owns the anf_topological model) is tied by "
+                           "correspondence only — stream S8: variadic lazy nodes (Stack, Cat, n-ary Contraction) listing the same cons-hashed "
+                           "child 2-3 times in every position next to a sibling 1-3 levels deeper, at and below the root, under both "
+                           "reinterpreters (stack_reinterpret / recursion_reinterpret = FUNSOR_USE_TCO 1/0)")
     ctx.assumptions.append("numpy basic/advanced indexing is modelled by its index-level specification (composition of index functions)")
     ctx.assumptions.append("Delta.eager_subs (renaming / ground value -> density; NOT the solve() branch that inverts a value with real inputs: "
                            "C14), Independent.eager_subs and the rename/decline decision of MarkovProduct/Scatter.eager_subs have executable Lean "
